@@ -105,26 +105,40 @@ fn machine_sets(lib: &[Gadget], first: &dyn Fn(&Gadget) -> bool, second: &dyn Fn
     v
 }
 
-fn product(space: &Space, sets: &[(Vec<u16>, Vec<u16>)], delays: &[u64], fr: &[u8], conts: &[bool], seeds: &[u64]) -> Vec<Job> {
-    let mut jobs = vec![];
-    for (c, s) in sets {
-        for t in 0..space.traces.len() as u32 {
-            for d in delays {
-                for f in fr {
-                    for ct in conts {
-                        for sd in seeds {
-                            let mut j = Job::new(t, *d, c.clone(), s.clone());
-                            j.fr = *f;
-                            j.cont = *ct;
-                            j.seed = *sd;
-                            jobs.push(j);
-                        }
-                    }
-                }
-            }
-        }
+/// Lazy Cartesian product: job index -> (set, trace, delay, fraction pair, continue flag, seed).
+pub struct Product {
+    pub sets: Vec<(Vec<u16>, Vec<u16>)>,
+    pub ntraces: usize,
+    pub delays: Vec<u64>,
+    pub fr: Vec<u8>,
+    pub conts: Vec<bool>,
+    pub seeds: Vec<u64>,
+}
+impl Product {
+    pub fn len(&self) -> usize {
+        self.sets.len() * self.ntraces * self.delays.len() * self.fr.len() * self.conts.len() * self.seeds.len()
     }
-    jobs
+    pub fn job(&self, mut i: usize) -> Job {
+        let sd = self.seeds[i % self.seeds.len()];
+        i /= self.seeds.len();
+        let ct = self.conts[i % self.conts.len()];
+        i /= self.conts.len();
+        let f = self.fr[i % self.fr.len()];
+        i /= self.fr.len();
+        let d = self.delays[i % self.delays.len()];
+        i /= self.delays.len();
+        let t = i % self.ntraces;
+        i /= self.ntraces;
+        let (c, s) = &self.sets[i];
+        let mut j = Job::new(t as u32, d, c.clone(), s.clone());
+        j.fr = f;
+        j.cont = ct;
+        j.seed = sd;
+        j
+    }
+}
+fn product(space: &Space, sets: Vec<(Vec<u16>, Vec<u16>)>, delays: &[u64], fr: &[u8], conts: &[bool], seeds: &[u64]) -> Product {
+    Product { sets, ntraces: space.traces.len(), delays: delays.to_vec(), fr: fr.to_vec(), conts: conts.to_vec(), seeds: seeds.to_vec() }
 }
 
 fn sample_of(sys: &SimSys, evs: &[Ev]) -> Value {
@@ -463,22 +477,26 @@ pub fn worker_c15(ctx: &WorkerCtx) -> WorkerOut {
     let sp = space(q, if q { 3 } else { 4 });
     let delays = [0, 2 * US, 5 * US];
     let sets = machine_sets(&sp.lib, &|_| true, &|g| q && g.name.len() % 3 == 0 || !q && g.name.len() % 2 == 0, q);
-    let mut jobs = product(&sp, &sets, &delays, &[0, 1], &[true, false], &[0]);
-    if q {
-        jobs = jobs.into_iter().enumerate().filter(|(i, j)| sp.traces[j.trace as usize].len() < 3 || i % 3 == 0).map(|x| x.1).collect();
-    }
-    // pps limits on a sub-product
-    let mut extra = vec![];
-    for j in jobs.iter().step_by(41) {
-        for p in [1usize, 2] {
-            let mut k = j.clone();
-            k.pps = Some(p);
-            extra.push(k);
+    let pr = product(&sp, sets, &delays, &[0, 1], &[true, false], &[0]);
+    let n = pr.len();
+    // the product, then packets-per-second limits 1 and 2 on every 41st system
+    let build = |i: usize| -> Option<SimSys> {
+        if i < n {
+            let j = pr.job(i);
+            if q && sp.traces[j.trace as usize].len() >= 3 && i % 3 != 0 {
+                return None;
+            }
+            Some(sp.build(&j))
+        } else {
+            let k = i - n;
+            let mut j = pr.job((k / 2) * 41 % n);
+            j.pps = Some(1 + k % 2);
+            Some(sp.build(&j))
         }
-    }
-    jobs.extend(extra);
-    let b = bounds(&sp, jobs.len(), &delays);
-    let res = run_jobs("C15", &jobs, &|j| sp.build(j), &judge_c15, ctx);
+    };
+    let total = n + 2 * (n / 41);
+    let b = bounds(&sp, total, &delays);
+    let res = run_jobs("C15", total, &build, &judge_c15, ctx);
     finish("C15", res, "one job = one closed system (trace x delay x machine sets x fractions x continue flag), run on the real sim_advanced; oracle: time order, exact sent/received matching per side and kind with the network delay, normal packet conservation. distinct_nontrivial = distinct output traces containing padding or blocking", b, 1000, ctx, vec![ASSUME.into()])
 }
 pub fn worker_c16(ctx: &WorkerCtx) -> WorkerOut {
@@ -486,12 +504,17 @@ pub fn worker_c16(ctx: &WorkerCtx) -> WorkerOut {
     let sp = space(q, 3);
     let delays = [0, 2 * US, 5 * US];
     let sets = machine_sets(&sp.lib, &|g| g.kind == 'b', &|g| matches!(g.kind, 'b' | 'p' | 'r') || !q && g.kind == 'x', q);
-    let mut jobs = product(&sp, &sets, &delays, &[0], &[true], &[0]);
-    if q {
-        jobs = jobs.into_iter().enumerate().filter(|(i, j)| sp.traces[j.trace as usize].len() < 3 || i % 2 == 0).map(|x| x.1).collect();
-    }
-    let b = bounds(&sp, jobs.len(), &delays);
-    let res = run_jobs("C16", &jobs, &|j| sp.build(j), &judge_c16, ctx);
+    let pr = product(&sp, sets, &delays, &[0], &[true], &[0]);
+    let n = pr.len();
+    let build = |i: usize| -> Option<SimSys> {
+        let j = pr.job(i);
+        if q && sp.traces[j.trace as usize].len() >= 3 && i % 2 != 0 {
+            return None;
+        }
+        Some(sp.build(&j))
+    };
+    let b = bounds(&sp, n, &delays);
+    let res = run_jobs("C16", n, &build, &judge_c16, ctx);
     finish("C16", res, "one job = one closed system with at least one blocking gadget (all four bypass/replace combinations, overlapping and back-to-back blocks, durations from 0), run on the real sim_advanced; per-side monitor: window per the contract, exactly one BlockingEnd at expiry, every TunnelSent inside the window must be bypass-flagged, allowed by every action that started/updated the blocking, and earned by a bypass padding action. distinct_nontrivial = distinct output traces with at least one BlockingBegin", b, 1000, ctx, vec![ASSUME.into()])
 }
 pub fn worker_c17(ctx: &WorkerCtx) -> WorkerOut {
@@ -499,12 +522,17 @@ pub fn worker_c17(ctx: &WorkerCtx) -> WorkerOut {
     let sp = space(q, 3);
     let delays = [0, 2 * US, 5 * US];
     let sets = machine_sets(&sp.lib, &|g| matches!(g.kind, 'p' | 'b' | 'r' | 'c'), &|g| matches!(g.kind, 'p' | 'b' | 'r' | 'c' | 'x'), q);
-    let mut jobs = product(&sp, &sets, &delays, &[0], &[true], &[0]);
-    if q {
-        jobs = jobs.into_iter().enumerate().filter(|(i, j)| sp.traces[j.trace as usize].len() < 3 || i % 2 == 0).map(|x| x.1).collect();
-    }
-    let b = bounds(&sp, jobs.len(), &delays);
-    let res = run_jobs("C17", &jobs, &|j| sp.build(j), &judge_c17, ctx);
+    let pr = product(&sp, sets, &delays, &[0], &[true], &[0]);
+    let n = pr.len();
+    let build = |i: usize| -> Option<SimSys> {
+        let j = pr.job(i);
+        if q && sp.traces[j.trace as usize].len() >= 3 && i % 2 != 0 {
+            return None;
+        }
+        Some(sp.build(&j))
+    };
+    let b = bounds(&sp, n, &delays);
+    let res = run_jobs("C17", n, &build, &judge_c17, ctx);
     finish("C17", res, "one job = one closed system with padding/blocking/cancel gadgets (timeouts from 0, actions re-issued before they fire, cancels of each timer kind, several machines per side); per-side, per-machine monitor of pending action vs reported PaddingSent/BlockingBegin. distinct_nontrivial = distinct output traces with at least one action-timer firing", b, 1000, ctx, vec![ASSUME.into()])
 }
 pub fn worker_c18(ctx: &WorkerCtx) -> WorkerOut {
@@ -512,12 +540,17 @@ pub fn worker_c18(ctx: &WorkerCtx) -> WorkerOut {
     let sp = space(q, 3);
     let delays = [0, 2 * US, 5 * US];
     let sets = machine_sets(&sp.lib, &|g| g.kind == 't' || g.name.starts_with("cancel") && g.name.contains("own1"), &|g| matches!(g.kind, 't' | 'c') || g.kind == 'p' && g.name.contains("to1"), q);
-    let mut jobs = product(&sp, &sets, &delays, &[0], &[true], &[0]);
-    if q {
-        jobs = jobs.into_iter().enumerate().filter(|(i, j)| sp.traces[j.trace as usize].len() < 3 || i % 2 == 0).map(|x| x.1).collect();
-    }
-    let b = bounds(&sp, jobs.len(), &delays);
-    let res = run_jobs("C18", &jobs, &|j| sp.build(j), &judge_c18, ctx);
+    let pr = product(&sp, sets, &delays, &[0], &[true], &[0]);
+    let n = pr.len();
+    let build = |i: usize| -> Option<SimSys> {
+        let j = pr.job(i);
+        if q && sp.traces[j.trace as usize].len() >= 3 && i % 2 != 0 {
+            return None;
+        }
+        Some(sp.build(&j))
+    };
+    let b = bounds(&sp, n, &delays);
+    let res = run_jobs("C18", n, &build, &judge_c18, ctx);
     finish("C18", res, "one job = one closed system with UpdateTimer gadgets (both replace settings, durations from 0, repeated updates at one instant, cancels of the internal timer, several machines, both sides); per-machine monitor of the timer expiry per the UpdateTimer contract vs reported TimerBegin/TimerEnd. distinct_nontrivial = distinct output traces with at least one TimerBegin", b, 1000, ctx, vec![ASSUME.into()])
 }
 
@@ -557,10 +590,11 @@ pub fn worker_c14(ctx: &WorkerCtx) -> WorkerOut {
         }
     }
     let n = jobs.len();
-    let res = run_jobs("C14", &jobs, &|j| sp.build(j), &|s, st| judge_c14(s, 0, st), ctx);
+    let jobs0: Vec<Job> = jobs.iter().filter(|j| j.api == 0).cloned().collect();
+    let res = run_jobs("C14", jobs0.len(), &|i| Some(sp.build(&jobs0[i])), &|s, st| judge_c14(s, 0, st), ctx);
     // the sim() API runs (api = 1) need their own judge call: run them as a second pass
     let jobs1: Vec<Job> = jobs.iter().filter(|j| j.api == 1).cloned().collect();
-    let res1 = run_jobs("C14", &jobs1, &|j| sp.build(j), &|s, st| judge_c14(s, 1, st), ctx);
+    let res1 = run_jobs("C14", jobs1.len(), &|i| Some(sp.build(&jobs1[i])), &|s, st| judge_c14(s, 1, st), ctx);
     let mut out = finish("C14", res, "one job = one input trace (all traces up to the length bound over gaps {0,1ns,1us,100ms,100ms+1ns,1s} and both directions) x network delay x API (sim, sim_advanced) x every filter combination x length cap, without machines; oracle: the multiset of network-visible (time, side, sent/received) events equals the input trace exactly, mirrored and shifted by the delay at the server. distinct_nontrivial = distinct output traces of inputs with more than one packet", json!({"traces": sp.traces.len(), "delays_ns": delays, "jobs": n, "sim_api_jobs": jobs1.len()}), 1000, ctx, vec!["no integration delays; the packets-per-second bottleneck derived by parse_trace never binds for these traces".into()]);
     out.reported.extend(res1.reported);
     out.coverage["sim_api_runs"] = json!(res1.runs);
@@ -583,7 +617,8 @@ pub fn worker_c19(ctx: &WorkerCtx) -> WorkerOut {
             sets.push((vec![*i, j], vec![l]));
         }
     }
-    let base = product(&sp, &sets, &delays, &[0, 1], &[true, false], &[0]);
+    let basep = product(&sp, sets, &delays, &[0, 1], &[true, false], &[0]);
+    let base: Vec<Job> = (0..basep.len()).map(|i| basep.job(i)).collect();
     let pps_menu: [Option<usize>; 8] = [None, Some(1), Some(2), Some(10), Some(1000), Some(u32::MAX as usize), Some(1usize << 32), Some(usize::MAX)];
     let mut jobs = vec![];
     for (i, j) in base.iter().enumerate() {
@@ -609,7 +644,7 @@ pub fn worker_c19(ctx: &WorkerCtx) -> WorkerOut {
         }
     }
     let b = bounds(&sp, jobs.len(), &delays);
-    let res = run_jobs("C19", &jobs, &|j| sp.build(j), &judge_c19, ctx);
+    let res = run_jobs("C19", jobs.len(), &|i| Some(sp.build(&jobs[i])), &judge_c19, ctx);
     finish("C19", res, "one job = one closed system x packets-per-second limit {none,1,2,10,1000,2^32-1,2^32,usize::MAX} x max_trace_length {0,1,5} x max_sim_iterations {1,7,120} x both continue settings x all four filter combinations x seeds {0,1,2}; oracle: no panic, two runs on clones of the same queue identical, filtered outputs equal the projection (prefix under a length cap) of the unfiltered trace, stop bounds respected, time ordered. distinct_nontrivial = distinct output traces containing padding, blocking or timers", b, 1000, ctx, vec![ASSUME.into()])
 }
 
